@@ -50,7 +50,8 @@ Fam(k1, k2) == [k1 |-> k1, k2 |-> k2]
 FamsQuick   == { Fam("RSA", "RSA"), Fam("ECDSA", "ECDSA"), Fam("RSA", "ECDSA") }
 FamsAll     == { Fam(a, b) : a \in {"RSA", "ECDSA"}, b \in {"RSA", "ECDSA"} }
 MintersTwo  == {"A", "B1"}
-FamsDeep    == { Fam("RSA", "ECDSA") }
+FamsDeep    == { Fam("ECDSA", "ECDSA") }
+FamsDeepT   == { Fam("RSA", "ECDSA") }
 ASSUME DeepMinters \subseteq Minters /\ DeepFams \subseteq Fams /\ DeepLen >= MaxLen
 KeyFam(f, k) == IF k = "k1" THEN f.k1 ELSE f.k2
 
@@ -140,10 +141,14 @@ CacheUnused == ~ProcessWideCache => cache = {}
 
 (***************************** history emission ****************************)
 \* a history in which nothing is ever accepted by either codec cannot show a dependence on
-\* earlier acceptances
-Interesting == \E i \in DOMAIN hist : hist[i].sess.verdict = "accept" \/ hist[i].trk.verdict = "accept"
-Maximal == Len(hist) = (IF Deep THEN DeepLen ELSE MaxLen)
-Emit == (Maximal /\ Interesting) =>
+\* earlier acceptances; of the longer histories only those in which the session codec accepts
+\* (a presentation the statement requires to authenticate) are kept
+SessAccepts   == \E i \in DOMAIN hist : hist[i].sess.verdict = "accept"
+EitherAccepts == \E i \in DOMAIN hist : hist[i].sess.verdict = "accept" \/ hist[i].trk.verdict = "accept"
+Emitted == \/ Len(hist) = MaxLen /\ ~Deep /\ EitherAccepts
+           \/ Len(hist) = DeepLen /\ Deep /\ SessAccepts
+           \/ Len(hist) = MaxLen /\ Deep /\ EitherAccepts /\ ~SessAccepts
+Emit == Emitted =>
           PrintT(<<"RHIST", ToJson([fam |-> fam,
                                     steps |-> [i \in DOMAIN hist |->
                                                  [by |-> hist[i].by, kind |-> hist[i].kind, to |-> hist[i].to,
